@@ -437,6 +437,13 @@ pub(crate) fn parse_cpulist(s: &str) -> Vec<usize> {
     out
 }
 
+/// Verification hook: the crate-private cpulist parser, callable by the
+/// external harness.
+#[cfg(feature = "verif-hooks")]
+pub fn verif_parse_cpulist(s: &str) -> Vec<usize> {
+    parse_cpulist(s)
+}
+
 fn read_cpulist(path: &Path) -> Option<Vec<usize>> {
     read_file(path).map(|s| parse_cpulist(&s))
 }
